@@ -1,12 +1,12 @@
 (* Matrix/BigOps.v -- a second EXECUTABLE instance of Matrix/MxOps.v: the same
    textbook list-of-rows operations as Matrix/ListOps.v, with the scalars held as
-   Bignums' bigQ (machine-word arithmetic under vm_compute, every result
-   normalised by BigQ's own gcd) instead of stdlib Q.
+   Bignums' bigQ (machine-word arithmetic under vm_compute; sums of fractions
+   with different denominators are normalised by BigQ's own gcd) instead of stdlib Q.
 
    Why: the model-selection gradients of property C11 (Matrix/Selection.v) sum
    products of entries of A^-1 whose reduced denominators all differ; with binary
    Q every such addition costs a gcd on 2000-3000-bit numbers (~1 s each under
-   vm_compute), i.e. ~1 minute per n = 5 case.  With bigQ the same case takes ~1 s.
+   vm_compute), i.e. ~1 minute per n = 5 case.  Here the same case takes ~1 s.
 
    Trust: there are no theorems about this file either (DESIGN 2.3).  What limits
    the trust needed:
@@ -30,15 +30,44 @@ Definition bmat := list (list bigQ).
 
 Definition bzero : bigQ := BigQ.zero.
 Definition bone : bigQ := BigQ.one.
-Definition b_of_Q (x : Q) : bigQ := BigQ.red (BigQ.of_Q x).
-Definition b_to_Q (x : bigQ) : Q := Qred (BigQ.to_Q x).
+(* conversions and scalar operations.  NOTHING is ever reduced: the harness writes each
+   input matrix over one common power-of-two denominator and ListOps.qinv returns all
+   entries over the determinant, so the entries of every intermediate matrix share one
+   denominator and `badd1` adds numerators; when two denominators differ the sum is
+   formed by cross-multiplication (BigQ.add), which again gives the entries of a matrix
+   sum a common denominator.  The data flows of the GP models are a handful of
+   operations deep, so the numbers stay at a few thousand bits; a gcd per operation
+   (what ListOps.qplus' falls back to) is what made the binary-Q evaluation slow.
+   Representations differ from ListOps, values do not: comparisons are by Qeq_bool /
+   Qle_bool. *)
+Definition b_of_Q (x : Q) : bigQ := BigQ.of_Q x.
+Definition b_to_Q (x : bigQ) : Q := BigQ.to_Q x.
 
 Definition of_qmat (A : qmat) : bmat := map (map b_of_Q) A.
 Definition to_qmat (A : bmat) : qmat := map (map b_to_Q) A.
+Definition to_qmat_raw (A : bmat) : qmat := map (map BigQ.to_Q) A.
+
+Definition bz (x : bigQ) : bool :=
+  match x with
+  | BigQ.Qz z => BigZ.eqb z BigZ.zero
+  | BigQ.Qq n _ => BigZ.eqb n BigZ.zero
+  end.
+
+(* x + y; same value as BigQ.add.  Zeros are skipped and equal denominators are kept
+   (Qq n 0 denotes 0, so equal zero denominators are fine), exactly like ListOps.qplus' *)
+Definition badd1 (x y : bigQ) : bigQ :=
+  if bz x then y else if bz y then x else
+  match x, y with
+  | BigQ.Qq nx dx, BigQ.Qq ny dy =>
+      if BigN.eqb dx dy then BigQ.Qq (BigZ.add nx ny) dx else BigQ.add x y
+  | _, _ => BigQ.add x y
+  end.
+(* x * y, not reduced (like ListOps.qmult') *)
+Definition bmul1 (x y : bigQ) : bigQ := if bz x || bz y then bzero else BigQ.mul x y.
 
 Fixpoint bdot (u v : bvec) : bigQ :=
   match u, v with
-  | x :: u', y :: v' => BigQ.add_norm (BigQ.mul_norm x y) (bdot u' v')
+  | x :: u', y :: v' => badd1 (bmul1 x y) (bdot u' v')
   | _, _ => bzero
   end.
 
@@ -48,11 +77,11 @@ Definition bncols (A : bmat) : nat := match A with [] => 0%nat | r :: _ => lengt
 Definition bmul (A B : bmat) : bmat :=
   let Bt := btr (length B) (bncols B) B in
   map (fun r => map (fun c => bdot r c) Bt) A.
-Definition badd (A B : bmat) : bmat := map2 (map2 BigQ.add_norm) A B.
+Definition badd (A B : bmat) : bmat := map2 (map2 badd1) A B.
 Definition bopp (A : bmat) : bmat := map (map BigQ.opp) A.
-Definition bscal (c : Q) (A : bmat) : bmat := let c' := b_of_Q c in map (map (BigQ.mul_norm c')) A.
-Definition bhad (A B : bmat) : bmat := map2 (map2 BigQ.mul_norm) A B.
-Definition brecip (A : bmat) : bmat := map (map BigQ.inv_norm) A.
+Definition bscal (c : Q) (A : bmat) : bmat := let c' := b_of_Q c in map (map (bmul1 c')) A.
+Definition bhad (A B : bmat) : bmat := map2 (map2 bmul1) A B.
+Definition brecip (A : bmat) : bmat := map (map BigQ.inv) A.
 Definition babs1 (x : bigQ) : bigQ :=
   match BigQ.compare x bzero with Lt => BigQ.opp x | _ => x end.
 Definition babs (A : bmat) : bmat := map (map babs1) A.
@@ -67,7 +96,7 @@ Definition bdiagof (A : bmat) : bmat :=
   map (fun ir => [nth (fst ir) (snd ir) bzero]) (combine (seq 0 (length A)) A).
 
 (* the verified inverse of ListOps, transported *)
-Definition binv (n : nat) (A : bmat) : bmat := of_qmat (qinv n (to_qmat A)).
+Definition binv (n : nat) (A : bmat) : bmat := of_qmat (qinv n (to_qmat_raw A)).
 
 Definition BigOps : mxops :=
   {| mx      := fun _ _ => bmat;
@@ -85,15 +114,41 @@ Definition BigOps : mxops :=
      mdiagv  := fun _ => bdiagv;
      mdiagof := fun _ => bdiagof |}.
 
-(* an executable instance together with the conversions from / to lists of Q *)
+(* ---- comparisons carried out in bigQ (converting a 30000-bit bigZ to binary Z is far
+   more expensive than any arithmetic on it) --------------------------------------------- *)
+Definition ble (x y : bigQ) : bool := match BigQ.compare x y with Gt => false | _ => true end.
+(* |x - y| <= tol *)
+Definition bclose2 (tol : Q) (x y : bigQ) : bool := ble (babs1 (BigQ.sub x y)) (b_of_Q tol).
+Definition bclose (tol : Q) (x : bigQ) (q : Q) : bool := bclose2 tol x (b_of_Q q).
+Fixpoint bclose_vec (tol : Q) (xs : bvec) (qs : qvec) : bool :=
+  match xs, qs with
+  | [], [] => true
+  | x :: xs', q :: qs' => bclose tol x q && bclose_vec tol xs' qs'
+  | _, _ => false
+  end.
+Fixpoint beq_vec (xs ys : bvec) : bool :=
+  match xs, ys with
+  | [], [] => true
+  | x :: xs', y :: ys' => BigQ.eq_bool x y && beq_vec xs' ys'
+  | _, _ => false
+  end.
+Definition bentry11 (A : bmat) : bigQ := hd bzero (hd [] A).
+Definition bcol_to_vec (A : bmat) : bvec := map (fun r => hd bzero r) A.
+
+(* an executable instance together with the conversions from lists of Q, to lists of Q
+   (used only on small numbers: the inverse of the Cholesky factor) and to lists of bigQ
+   (where every comparison with the observed outputs is made) *)
 Record exec := Exec {
   eops :> mxops;
   einj : forall m n : nat, qmat -> mx eops m n;
-  eprj : forall m n : nat, mx eops m n -> qmat
+  eprjQ : forall m n : nat, mx eops m n -> qmat;
+  eprj : forall m n : nat, mx eops m n -> bmat
 }.
 
-Definition ListExec : exec := {| eops := ListOps; einj := fun _ _ A => A; eprj := fun _ _ A => A |}.
-Definition BigExec : exec := {| eops := BigOps; einj := fun _ _ => of_qmat; eprj := fun _ _ => to_qmat |}.
+Definition ListExec : exec :=
+  {| eops := ListOps; einj := fun _ _ A => A; eprjQ := fun _ _ A => A; eprj := fun _ _ => of_qmat |}.
+Definition BigExec : exec :=
+  {| eops := BigOps; einj := fun _ _ => of_qmat; eprjQ := fun _ _ => to_qmat; eprj := fun _ _ A => A |}.
 
 (* ---- self-test: both instances compute the same products, sums, entrywise
    operations and inverse on a matrix with unrelated denominators ------------------- *)
